@@ -101,8 +101,9 @@ def run_case(ctx, case):
                                    # operation on one object must not reach another object holding an equal value
                                    groups=list(dict.fromkeys([rng.choice(('shared-g1', 'shared-g2', 'g%d-%d' % (i, j)))
                                                               for j in range(rng.randrange(0, 4))])),
-                                   asi=list(dict.fromkeys([rng.choice((('shared-ns', 'shared-data'), ('ns%d-%d' % (i, j), 'd%d' % j)))
-                                                           for j in range(rng.randrange(0, 3))])),
+                                   asi=list(dict.fromkeys([rng.choice((('shared-ns', 'shared-data'), ('ns%d-%d' % (i, j), 'd%d' % j),
+                                                                       ('same-ns', 'data-%d' % j), ('same-ns', 'other-%d' % j)))
+                                                           for j in range(rng.randrange(0, 4))])),
                                    state=rng.choice(('pre', 'active')))
                 if o:
                     objs.append(o)
@@ -167,9 +168,16 @@ def run_case(ctx, case):
                                 expected = list(cur[name])
                                 expected[pick] = value_repr_for(name, newv)
                             elif mode == 'wrongcurrent' or (mode == 'current' and name in MULTI):
+                                existing_ns = None
+                                if name == 'Application Specific Information' and n_inst:
+                                    pv_ = current_value(name, objs, uid, cur, rng.randrange(n_inst))
+                                    existing_ns = pv_['application_namespace'] if pv_ else None
                                 curv = {'Name': name_value('absent-name'), 'Object Group': 'absent-group',
-                                        'Application Specific Information': {'application_namespace': 'absent',
-                                                                             'application_data': 'absent'}}.get(name)
+                                        'Application Specific Information': {
+                                            'application_namespace': existing_ns if (existing_ns and rng.random() < 0.6) else 'absent',
+                                            'application_data': 'no-instance-has-this-data'}}.get(name)
+                                if name in MULTI:
+                                    expected = 'must-fail'
                                 if curv is None:
                                     curv = newv
                                     expected = [value_repr_for(name, newv)]
@@ -217,12 +225,40 @@ def run_case(ctx, case):
                                 del expected[i]
                             else:
                                 expected = 'must-fail'
-                    req = rig.encode_request(rig.build_request(version, [op]), version)
+                    in_batch = rng.random() < 0.2
+                    if in_batch:
+                        creator = op_register('secret', secret_data(b'c15-batch'), common_attrs(names=['c15-batch-%d-%d' % (case['hist'], uniq)]))
+                        req = rig.encode_request(rig.build_request(version, [creator, op]), version)
+                    else:
+                        req = rig.encode_request(rig.build_request(version, [op]), version)
                     rig.decode_request(req)
                 except Exception:
                     ctx.count('call_not_encodable')
                     continue
-                res = srv.send_bytes(req, OWNER)
+                res_full = srv.send_bytes(req, OWNER)
+                res = res_full
+                if in_batch and res_full.error is None and len(res_full.items) == 2 and res_full.ok(0):
+                    # judge the attribute operation (item 1); the object the batch created joins the watched set
+                    new_uid = res_full.uid(0)
+                    ctx.count('calls_in_batches')
+
+                    class _Item(object):
+                        error = None
+                        items = [res_full.items[1]]
+
+                        def ok(self, i=0):
+                            return res_full.ok(1)
+
+                        def brief(self):
+                            return [res_full.brief()[1]]
+                    res = _Item()
+                    if new_uid and new_uid not in uids:
+                        uids.append(new_uid)
+                        kinds[new_uid] = 'secret'
+                        before[new_uid] = {'attrs': {}, 'frozen': {}, 'get_ok': True, 'fresh': True}
+                elif in_batch:
+                    before = snapshot(srv, uids)
+                    continue
                 after = snapshot(srv, uids)
                 ctx.ev()
                 ctx.count('calls_checked')
@@ -236,8 +272,14 @@ def run_case(ctx, case):
                 kbase = '%s|%s|%s|' % (vform, name, idxc)
                 # (1) frozen attributes of every object, whatever the outcome
                 for u in uids:
-                    b, a = before[u], after[u]
+                    b, a = before.get(u), after.get(u)
                     if b is None:
+                        continue
+                    if b.get('fresh'):
+                        # created by this very batch: it must look like an untouched new object
+                        if a is not None and (a['attrs'].get('Sensitive', ["False"]) != ["False"]):
+                            ctx.violation(kbase + 'other-object', 'the object created earlier in the batch (%s) was changed by an '
+                                          'attribute operation that names another object' % u, detail)
                         continue
                     if a is None:
                         ctx.violation(kbase + 'object-vanished', 'object %s disappeared' % u, detail)
